@@ -99,6 +99,70 @@ def abandoned_image(hist, records, k):
     return store.data.get('mem.gro', '')
 
 
+def bulk_failed_image(hist, records, k):
+    """writelines() is handed a source of records that fails after k of them; the caller does not close the
+    writer (the exception travels up): the file content once the writer is gone."""
+    import gc
+    import gaddlemaps.parsers as P
+    from gaddlemaps.parsers import GroFile
+
+    def source():
+        for r in records[:k]:
+            yield r
+        raise RuntimeError('record source failed')
+    store = seams.FileStore()
+    with seams.patched(P, 'open', store.open):
+        g = GroFile('mem.gro', 'w')
+        try:
+            g.comment = 'crash images'
+            g.box_matrix = BOXES[hist['box']]
+            dec = declared_count(hist['n'], hist['count'])
+            if dec is not None:
+                g.natoms = dec
+            g.writelines(source())
+        except Exception:
+            pass
+        image_alive = store.data.get('mem.gro', '')
+        del g
+        gc.collect()
+    return image_alive, store.data.get('mem.gro', '')
+
+
+def read_while_writer_alive(path, hist, records, k):
+    """A writer on a REAL path has written k records (flushed) and is still referenced when the path is opened for
+    reading - by the same process.  Returns the reader's verdict and the content of the path afterwards."""
+    from gaddlemaps.parsers import GroFile
+    if os.path.exists(path):
+        os.remove(path)
+    g = GroFile(path, 'w')
+    try:
+        g.comment = 'crash images'
+        g.box_matrix = BOXES[hist['box']]
+        dec = declared_count(hist['n'], hist['count'])
+        if dec is not None:
+            g.natoms = dec
+        for r in records[:k]:
+            g.writeline(r)
+        g._file.flush()
+    except Exception:
+        pass
+    try:
+        rd = GroFile(path)
+        try:
+            verdict = ('ok', [tuple(r) for r in rd.readlines()])
+        finally:
+            rd.close()
+    except Exception as e:
+        verdict = ('raise', type(e).__name__)
+    with open(path, newline='') as fh:
+        image = fh.read()
+    try:
+        g._file.close()
+    except Exception:
+        pass
+    return verdict, image
+
+
 def abandoned_over_existing(path, hist, records, k, complete_text):
     """Non-initial state on a REAL path: it holds a complete file; a new writer is opened on it, writes k records
     and is dropped without close().  Returns the content of the path afterwards."""
@@ -143,6 +207,16 @@ def crash_images(ops):
             for t in range(1, len(text)):
                 yield kind, i, t, apply_write(data, pos, text[:t])
             data = apply_write(data, pos, text)
+        yield 'op', i + 1, None, data
+
+
+def light_crash_images(ops):
+    """Operation-granularity images only (for long histories)."""
+    data = ''
+    yield 'op', 0, None, data
+    for i, op in enumerate(ops):
+        if op[0] == 'write':
+            data = apply_write(data, op[1], op[2])
         yield 'op', i + 1, None, data
 
 
@@ -270,6 +344,14 @@ class C14(Check):
                         u += [{'k': 'hists', 'h': [h]} for h in hs]
                     else:
                         u.append({'k': 'hists', 'h': hs})
+        # long histories, crash points at operation granularity only (every record boundary and every step of close):
+        # a writer that checkpoints its output every so many records must not leave an acceptable file there
+        big = (1500, 2500, 999, 1001) if tier == 'thorough' else (1500,)
+        self.bounds['records_light'] = list(big)
+        for n in big:
+            for count in ('none', 'right'):
+                u.append({'k': 'hists', 'h': [{'k': 'hist', 'n': n, 'vel': 0, 'count': count, 'box': 'rect',
+                                               'names': 'alpha', 'light': 1}]})
         for f in files:
             ks = truncation_offsets(shipped_text(f), tier)
             for a in range(0, len(ks), CHUNK):
@@ -355,7 +437,7 @@ class C14(Check):
                     R.add('complete_files')
                     if v != ('ok', expected):
                         R.add('complete_files_not_read_back')      # C13's business, exposed here
-            for kind, i, t, image in crash_images(ops):
+            for kind, i, t, image in (light_crash_images(ops) if case.get('light') else crash_images(ops)):
                 desc = dict(case, img=[kind, i, t])
                 if n <= 4 and image != one_crash_image(ops, kind, i, t):
                     R.violation('harness/image-builder-differs-from-filestore', desc, '')
@@ -372,6 +454,19 @@ class C14(Check):
                     if not (complete and image == final):
                         self._judge(R, dict(case, img=['abandon', k, None]), image, complete, final, expected,
                                     box_offset, 'abandoned-writer/', 'abandoned/' + cls)
+            if n <= 12:
+                for k in range(n + 1):
+                    for when, image in zip(('bulk-failed', 'bulk-failed-gone'), bulk_failed_image(case, records, k)):
+                        if not (complete and image == final):
+                            self._judge(R, dict(case, img=[when, k, None]), image, complete, final, expected,
+                                        box_offset, 'bulk-write-failed/', 'bulk-failed/' + cls)
+            if n <= 4:
+                with self._path() as path:
+                    for k in range(n + 1):
+                        verdict, image = read_while_writer_alive(path, case, records, k)
+                        if not (complete and image == final):
+                            self._judge(R, dict(case, img=['alive', k, None]), image, complete, final, expected,
+                                        box_offset, 'read-while-writer-alive/', 'writer-alive/' + cls, given=verdict)
             if complete and n <= 4:
                 with self._path() as path:
                     for k in range(n + 1):
@@ -380,7 +475,7 @@ class C14(Check):
                             self._judge(R, dict(case, img=['abandon-over', k, None]), image, True, final, expected,
                                         box_offset, 'abandoned-writer-over-existing-file/', 'abandoned-over/' + cls,
                                         given=read_real_file(path, image))
-            if complete:
+            if complete and not case.get('light'):
                 for k in range(len(final) + 1):
                     self._judge(R, dict(case, img=['trunc', k, None]), final[:k], True, final, expected,
                                 box_offset, 'truncation/generated/', 'trunc/' + cls)
@@ -390,7 +485,15 @@ class C14(Check):
             self._over_existing(case, R, ops, final, expected, box_offset, cls, only_i=only[1])
         else:
             kind, i, t = only
-            if kind == 'abandon-over':
+            if kind in ('bulk-failed', 'bulk-failed-gone'):
+                self._judge(R, case, bulk_failed_image(case, records, i)[kind == 'bulk-failed-gone'], complete, final,
+                            expected, box_offset, 'bulk-write-failed/', 'bulk-failed/' + cls)
+            elif kind == 'alive':
+                with self._path() as path:
+                    verdict, image = read_while_writer_alive(path, case, records, i)
+                    self._judge(R, case, image, complete, final, expected, box_offset,
+                                'read-while-writer-alive/', 'writer-alive/' + cls, given=verdict)
+            elif kind == 'abandon-over':
                 with self._path() as path:
                     image = abandoned_over_existing(path, case, records, i, final)
                     self._judge(R, case, image, True, final, expected, box_offset,
